@@ -411,6 +411,16 @@ def text_shortcuts(prog, rep, entry, parser, rule="R14.4"):
             if nontext:
                 continue
             textual = [(g, pol) for g, pol in p.guards() if T.contains(g, lambda x: x in (val, dec))]
+            # class tests: the witnesses are exact `str` objects
+            def class_test(g):
+                if T.is_call_to(g, f"{C.INSP}.istexttype", f"{C.INSP}.isstringtype") or (T.is_call_to(g, "builtins.isinstance") and g[2][:1] in ((val,), (dec,)) and T.contains(g[2][1], lambda z: z == ("ref", "builtins.str"))):
+                    return True
+                if g[0] == "cmp" and g[1] == "is" and ("ref", "builtins.str") in g[2:4] and any(x in (("attr", val, "__class__"), ("attr", dec, "__class__")) for x in g[2:4]):
+                    return True
+                return None
+            if any(class_test(g) is True and not pol for g, pol in textual):
+                continue  # a path for what is no exact str
+            textual = [(g, pol) for g, pol in textual if class_test(g) is None]
             if not textual:
                 rep.violated(rule, fn.qualname, fn.loc, "a path returns the text unparsed without asking a parser and without looking at the text", detail=f"shortcut-path{i}")
                 continue
